@@ -197,6 +197,18 @@ def run_property(pid: str, tier: str, only: str | None = None, jobs: int | None 
         if kind == "sample":
             if "divergence" in res:
                 errors.append(f"{h.name}: sample replay diverged: {res['divergence']} draws={payload['draws']}")
+            elif [f for f, k in zip(res["fail"], res.get("keys", [None] * len(res["fail"]))) if not (k is not None and k in known.get(h.name, {}))]:
+                # the real code, run on plain CPython with these inputs, breaks a clause that the symbolic run of the same
+                # path did not break: the violation is real (reproduced), the symbolic engine's model of some library call differs
+                digest = hashlib.sha1(json.dumps(payload["draws"]).encode()).hexdigest()[:10]
+                path = os.path.join(ROOT, "replays", pid, f"{h.name}-{digest}.json")
+                json.dump({"property": pid, "module": modname, "harness": h.name, "tier": tier, "draws": payload["draws"],
+                           "found_by": "plain-CPython replay of a sampled path (the symbolic run of this path did not fail)",
+                           "replay_fail": res["fail"], "replay_obs": res["obs"]}, open(path, "w"), indent=1)
+                violations.append((h.name, path, res["fail"]))
+                for a in per_h:
+                    if a["harness"] == h.name:
+                        a["status"] = "REFUTED"
             elif res["fail"] or res["wit"] != payload["wit"] or res["obs"] != payload["obs"]:
                 errors.append(f"{h.name}: symbolic and plain execution disagree on draws={payload['draws']}: "
                               f"plain fail={res['fail']} wit={res['wit']} obs={json.dumps(res['obs'])[:400]} / "
